@@ -683,3 +683,37 @@ def _(e, c, a):
     if k == 'is_subset': return all(ins(x, t) for x in s.items)
     if k == 'is_superset': return all(ins(x, s) for x in t.items)
     return not any(ins(x, t) for x in s.items)
+
+
+# ---------------------------------------------------------------- dashmap::DashSet (sequential semantics)
+@model(r'DashSet(<.*>)?::(new|default)$|<(dashmap::)?DashSet<.*> as Default>::default$')
+def _(e, c, a): return RSet('DashSet')
+
+
+@model(r'DashSet(<.*>)?::insert$')
+def _(e, c, a):
+    s = un(a[0])
+    for k in s.items:
+        r = veq(k, a[1])
+        if is_sym(r):
+            if e.branch(r): return False
+        elif r: return False
+    s.items.append(a[1]); return True
+
+
+@model(r'DashSet(<.*>)?::remove$')
+def _(e, c, a):
+    s = un(a[0])
+    for i, k in enumerate(s.items):
+        r = veq(k, a[1])
+        if (e.branch(r) if is_sym(r) else r):
+            s.items.pop(i); return Some(k)
+    return NONE()
+
+
+@model(r'DashSet(<.*>)?::(contains|len|is_empty)$')
+def _(e, c, a):
+    s = un(a[0]); k = c.rstrip().split('::')[-1]
+    if k == 'len': return len(s.items)
+    if k == 'is_empty': return not s.items
+    return zor([veq(x, a[1]) for x in s.items])
